@@ -202,7 +202,7 @@ func c03plan(tier string, seed int64) []run.Job {
 	var jobs []run.Job
 	nr, per := 16, 500
 	if tier == "thorough" {
-		nr, per = 64, 600
+		nr, per = 64, 1500
 	}
 	for i := 0; i < nr; i++ {
 		jobs = append(jobs, run.Job{Family: "random", Seed: seed*100000 + int64(i), N: per, P: map[string]int{"strat": 1, "lrfree": 1, "maxlen": 7, "inputs": 5}})
